@@ -277,6 +277,12 @@ fn expected(p: &Plan, root_at_resolve: &MapSet, disk: &BTreeMap<String, Vec<u8>>
     res
 }
 
+/// every shortest path to `target` runs over a diff file that is there and holds no byte
+fn path_has_empty_file(p: &Plan, disk: &BTreeMap<String, Vec<u8>>, target: usize) -> bool {
+    let paths = shortest_paths(p, target);
+    !paths.is_empty() && paths.iter().all(|path| path.iter().any(|ei| disk.get(&edge_file(p, &p.edges[*ei])).is_some_and(|b| b.is_empty())))
+}
+
 // ------------------------------------------------------------------------------------------------
 
 const VNAMES: [&str; 14] = ["1.3", "1.4", "1.5", "b1.7.3", "a1.2.6", "13w05a", "1.0.0", "rc2", "12w05a-1442", "1.6-pre", "inf-20100618", "c0.30", "1.2.5", "b1.8-pre1"];
@@ -417,7 +423,7 @@ impl Engine for C05 {
                     let edge = if f.chance(15) { None } else { Some(f.usize(p.edges.len())) };
                     let m = match f.below(5) {
                         0 => Mutation::Delete,
-                        1 | 2 => Mutation::Truncate { at: f.below(200) },
+                        1 | 2 => Mutation::Truncate { at: if f.chance(20) { 0 } else { f.below(200) } },
                         3 => Mutation::Flip { off: f.below(300), bit: f.below(8) as u8 },
                         _ => Mutation::Replace { with_edge: f.usize(p.edges.len()) },
                     };
@@ -1013,6 +1019,8 @@ fn run_once(p: &Plan, create_order: u64, st: &mut RunStats, answers: &mut Vec<St
                             }
                         } else if exp_now.len() == 1 && matches!(&exp_now[0], Exp::ErrParse(w) if w.starts_with(UNDECODABLE)) {
                             out.push(Violation::new(tier, "reader-ok-on-undecodable-input", "apply_diffs", format!("version {full:?}: a diff file on the only shortest path is not UTF-8 text, but an answer was given")));
+                        } else if path_has_empty_file(p, &disk, idx) {
+                            out.push(Violation::new(tier, "reader-ok-on-empty-input", "apply_diffs", format!("version {full:?}: a diff file on every shortest path holds no byte (not even the header line), but an answer was given")));
                         } else if exp_now.iter().any(|e| matches!(e, Exp::ErrParse(_))) {
                             // some shortest path runs over a text the reference reader rejects; the real reader may be more
                             // tolerant there, and its reading cannot be judged
